@@ -333,7 +333,7 @@ let is_simple_line (c : string) =
       && String.for_all (fun ch -> Char.code ch > 0 && Char.code ch < 128) body)
 let payload_ok (c : string) =
   let n = String.length c in
-  n >= 3 && String.sub c (n - 3) 3 = ".\r\n" && (n = 3 || String.sub c (n - 5) 2 = "\r\n")
+  n >= 3 && String.sub c (n - 3) 3 = ".\r\n" && (n = 3 || (n >= 5 && String.sub c (n - 5) 2 = "\r\n"))
   && (let lines = String.split_on_char '\n' (String.sub c 0 (n - 3)) in
       List.for_all (fun l -> l = "" || (l.[String.length l - 1] = '\r'
                                          && not (String.contains (String.sub l 0 (String.length l - 1)) '\r')
